@@ -35,6 +35,8 @@ ASSUMPTIONS = [
     "one-core 8, wrapped 12, oval 22, ring 2 per segment, hemisphere 35, joint with k branches 23 k + 5",
     "a point is on an intended circle when its distance from the centre and from the plane differ by <= 1e-6 R + 5e-8 "
     "(8 printed decimals); arcs are read from the written file",
+    "normals and rotation axes are direction arguments: callers pass vectors of any length (0.33 .. 3 here, never 1); "
+    "the constructors are expected to use their direction only",
     "callers sweep a sketch in the direction of its normal (Extrude amount > 0, Revolve/Elbow turning towards the "
     "normal), give RevolvedRing cross-sections in the documented point order and keep the joint's pipes >= 3 radii long",
     "'chops suffice': with count chops any exception from write is a violation; with size chops only "
@@ -251,7 +253,7 @@ def build_op(case) -> Spec:
         pts = [np.array([q[0], 0.0, q[1]]) for q in quad(case, case["rho"] * r + margin, 0.0)]
         if case["angle"] > 0:
             pts = [pts[0], pts[3], pts[2], pts[1]]
-        op = cb.Revolve(cb.Face([W(M, q) for q in pts]), case["angle"], D(M, Z), W(M, [0, 0, 0]))
+        op = cb.Revolve(cb.Face([W(M, q) for q in pts]), case["angle"], D(M, Z) * xs.dlen(place), W(M, [0, 0, 0]))
         s.circles = [Circle(W(M, [0, 0, q[2]]), D(M, Z), q[0], 1, case["angle"]) for q in pts]
     elif cls == "Wedge":
         # canonical (fixed by the class): axis +x through the origin, face in the xy-plane with y > 0
@@ -502,7 +504,8 @@ def build_chain(case):
         ac = W(M, [st_["bend"] * max(r, r2), 0, 0])
         axis = D(M, [0, sgn, 0])
         R = rm.m_rotate(st_["sweep"], axis, ac)
-        first = Tracked(cb.Elbow(c1, rp, n, st_["sweep"], ac, axis, r2), "solid", c1, n, r, rm.apply(R, c1),
+        dl = xs.dlen(case["place"])
+        first = Tracked(cb.Elbow(c1, rp, n * dl, st_["sweep"], ac, axis * dl, r2), "solid", c1, n, r, rm.apply(R, c1),
                         rm.apply_dir(R, n), r2)
     else:
         c2 = c1 + n * L
@@ -543,7 +546,8 @@ def build_chain(case):
                 ac = c + e * step["bend"] * max(rr, r2)
                 axis = np.cross(m, e)  # a positive sweep about this axis leaves the source along m
                 R = rm.m_rotate(step["sweep"], axis, ac)
-                new = Tracked(cb.Elbow.chain(src.lib, step["sweep"], ac, axis, r2, start_face=at_start), "solid", c, m, rr,
+                new = Tracked(cb.Elbow.chain(src.lib, step["sweep"], ac, axis * xs.dlen(case["place"]), r2,
+                                             start_face=at_start), "solid", c, m, rr,
                               rm.apply(R, c), rm.apply_dir(R, m), r2)
             interfaces.append({"kind": "plane", "c": c, "n": m, "r": rr})
         elif op == "expand":
